@@ -459,7 +459,7 @@ func genDims(r *hx.Run, rng *gen.Rng, do func(string) string) {
 								}
 							}
 						}
-						if co || (fits && rng.Chance(1, 200)) || (!fits && rng.Chance(1, 25)) {
+						if co || (fits && rng.Chance(1, 100)) || (!fits && rng.Chance(1, 8)) {
 							one(wPix, hPix, w, h)
 						}
 					}
@@ -469,9 +469,9 @@ func genDims(r *hx.Run, rng *gen.Rng, do func(string) string) {
 	}
 	// realistic sizes: images up to 160x160 px, boxes up to 40x20, common cell geometries
 	big := [][2]int{{8, 16}, {10, 20}, {9, 18}, {7, 15}, {1, 2}, {12, 24}, {1, 1}, {16, 8}}
-	n := 600
+	n := 3000
 	if r.Thorough {
-		n = 6000
+		n = 30000
 	}
 	for i := 0; i < n; i++ {
 		g := gen.Pick(rng, big)
@@ -626,9 +626,9 @@ func genBlocks(r *hx.Run, rng *gen.Rng, do func(string) string) {
 			}
 		}
 	}
-	m := 400
+	m := 3000
 	if r.Thorough {
-		m = 4000
+		m = 30000
 	}
 	alphas := []int{0, 1, 49, 50, 51, 128, 254, 255, 255, 255}
 	for i := 0; i < m; i++ {
@@ -662,9 +662,9 @@ func genBlocks(r *hx.Run, rng *gen.Rng, do func(string) string) {
 // placements
 
 func genPlacements(r *hx.Run, rng *gen.Rng, do func(string) string) {
-	n := 60
+	n := 300
 	if r.Thorough {
-		n = 600
+		n = 3000
 	}
 	type pl struct{ img, col, row int }
 	for c := 0; c < n; c++ {
